@@ -379,14 +379,14 @@ def c20_p1(ctx):
         fns = impl_and_closures(ctx, adt)
         getter = [g for g in impl_fns(ctx, adt) if g.name == "get_progress"]
         nm = adt.split("::")[-1]
-        if not getter:
-            raise Anchor("C20-P1", nm + "::get_progress")
-        eb_g = ExprBuilder(ctx.prog, getter[0])
-        gdefs = [expr_str(eb_g._def_expr(d, 0, (0,))) for d in getter[0].defs(0) if d[0] in ("assign", "call")]
-        if gdefs != [counter]:
-            yield bad("C20-P1", "%s::get_progress" % nm, at(getter[0]), "get_progress returns %s, not %s" % (gdefs, counter))
-        else:
-            yield ok("C20-P1", "%s::get_progress" % nm, at(getter[0]), "returns " + counter)
+        if getter:
+            eb_g = ExprBuilder(ctx.prog, getter[0])
+            gdefs = [expr_str(eb_g._def_expr(d, 0, (0,))) for d in getter[0].defs(0) if d[0] in ("assign", "call")]
+            if gdefs != [counter]:
+                yield bad("C20-P1", "%s::get_progress" % nm, at(getter[0]), "get_progress returns %s, not %s" % (gdefs, counter))
+            else:
+                yield ok("C20-P1", "%s::get_progress" % nm, at(getter[0]), "returns " + counter)
+        # (no getter: the indications below must then read the counter field itself)
         for ind in ("FaultIndication", "ResumeIndication", "KeepAlivePDU"):
             cnt = {}
             for f, b, j, s in agg_sites(fns, ind):
@@ -430,6 +430,65 @@ def c20_p2(ctx):
         raise Anchor("C20-P2", "writers of RecvTransaction.received_file_size")
 
 
+def _hwm_source(ctx, f, off, data, depth=0):
+    """Is `off` the position a bounded read started at and `data` the bytes it read?"""
+    from common import simp, sstr
+
+    ebf = ExprBuilder(ctx.prog, f, user_stop=True)
+    ddefs = [expr_str(x) for x in ebf.var_defs(data)]
+    bufs = {data} | {d for d in ddefs if re.match(r"^\w+$", d)}
+    read_into = False
+    seek_at = False
+    for b2, t2 in f.all_calls():
+        c = ebf.call(b2, t2)
+        cn = callee_name(c) or ""
+        if cn.endswith("Read::read_to_end") or cn.endswith("Read>::read_to_end") or cn.endswith("::read_to_end"):
+            if any(expr_str(a) in ("&mut " + x for x in bufs) for a in c[3][1:]):
+                read_into = True
+        if cn.endswith("Seek>::seek") or cn.endswith("Seek::seek"):
+            if expr_str(c[3][1]) == "io::SeekFrom::Start{%s}" % off:
+                seek_at = True
+    if read_into and seek_at:
+        return True, "max(old, %s + len(%s)); %s is the seek position, %s the bytes read" % (off, data, off, data)
+    # both are components of the pair returned by one call of a local function
+    if depth < 2:
+        def comp(name):
+            """definitions of `name`, followed through `let (a, b) = v;` where v is itself a variable"""
+            ds = [simp(x) for x in ebf.var_defs(name)]
+            if len(ds) == 1 and ds[0][0] == "place":
+                m = re.match(r"^(\w+)((?:\.\d+)+)$", ds[0][1])
+                if m:
+                    inner = [simp(x) for x in ebf.var_defs(m.group(1))]
+                    if len(inner) == 1 and inner[0][0] in ("call", "proj"):
+                        base = inner[0]
+                        return [("proj", base[1], (base[2] or "") + m.group(2), None)] if base[0] == "proj" else [("proj", base, m.group(2), None)]
+            return ds
+
+        od = comp(off)
+        dd = comp(data)
+        if len(od) == 1 and len(dd) == 1 and od[0][0] == "proj" and dd[0][0] == "proj" and od[0][1][0] == "call" and dd[0][1] == od[0][1]:
+            mo = re.search(r"\.(\d+)$", od[0][2])
+            md = re.search(r"\.(\d+)$", dd[0][2])
+            g = ctx.prog.by_norm.get(callee_name(od[0][1]) or "")
+            if mo and md and g is not None:
+                ebg = ExprBuilder(ctx.prog, g, user_stop=True)
+                pairs = set()
+                for d in g.defs(0):
+                    if d[0] != "assign":
+                        continue
+                    e = simp(ebg.rvalue(d[3]))
+                    if e[0] == "agg" and e[3] == "Ok" and e[5] and simp(e[5][0])[0] == "agg" and simp(e[5][0])[1] == "tuple":
+                        comps = [expr_str(simp(x)) for x in simp(e[5][0])[5]]
+                        if max(int(mo.group(1)), int(md.group(1))) < len(comps):
+                            pairs.add((comps[int(mo.group(1))], comps[int(md.group(1))]))
+                if pairs and all(re.match(r"^\w+$", o) and re.match(r"^\w+$", dt) for o, dt in pairs):
+                    res = [_hwm_source(ctx, g, o, dt, depth + 1) for o, dt in pairs]
+                    if all(r[0] for r in res):
+                        return True, "max(old, %s + len(%s)) of the pair returned by %s: %s" % (off, data, short(g.norm), res[0][1])
+                    return False, "pair returned by %s: %s" % (short(g.norm), [r[1] for r in res if not r[0]][0])
+    return False, "max idiom, but %s/%s are not the seek position / bytes read (read_into=%s seek_at=%s)" % (off, data, read_into, seek_at)
+
+
 @rule("C20", "C20-P3", 1, "the sender's counter is written only by an accepted high-water-mark idiom fed by the bytes actually read")
 def c20_p3(ctx):
     fns = impl_and_closures(ctx, SEND)
@@ -449,26 +508,9 @@ def c20_p3(ctx):
         if m:
             off = m.group(1) or m.group(3)
             data = m.group(2) or m.group(4)
-            # `data` must be the buffer filled by the bounded read, `offset` the position it was read at
-            ebf = ExprBuilder(ctx.prog, f, user_stop=True)
-            ddefs = [expr_str(x) for x in ebf.var_defs(data)]
-            bufs = {data} | {d for d in ddefs if re.match(r"^\w+$", d)}
-            read_into = False
-            seek_at = False
-            for b2, t2 in f.all_calls():
-                c = ebf.call(b2, t2)
-                cn = callee_name(c) or ""
-                if cn.endswith("Read::read_to_end") or cn.endswith("Read>::read_to_end") or cn.endswith("::read_to_end"):
-                    if any(expr_str(a) in ("&mut " + x for x in bufs) for a in c[3][1:]):
-                        read_into = True
-                if cn.endswith("Seek>::seek") or cn.endswith("Seek::seek"):
-                    if expr_str(c[3][1]) == "io::SeekFrom::Start{%s}" % off:
-                        seek_at = True
-            if read_into and seek_at:
-                good = True
-                why = "max(old, %s + len(%s)); %s is the seek position, %s the bytes read" % (off, data, off, data)
-            else:
-                why = "max idiom, but %s/%s are not the seek position / bytes read (read_into=%s seek_at=%s)" % (off, data, read_into, seek_at)
+            # `data` must be the buffer filled by the bounded read, `offset` the position it was read at -
+            # here, or in the local function that returns both as a pair
+            good, why = _hwm_source(ctx, f, off, data)
         if good:
             yield ok("C20-P3", key, at(f, s["span"]["line"]), why)
         else:
